@@ -4,7 +4,7 @@
    (Model/Token.v token_is_jwt / make_token, used by every grant handler of the flow model), and the
    secret atoms a DCR response or an error body may carry (Model/Disclosure.v).  That real bytes carry
    nothing else is the job of the scanner of suite c09. *)
-From Verif Require Import Base Scope Types Prog Pop Token Authorize System Config Artifacts ArtifactsX Disclosure C08Proofs C09Proofs C09History C08XProofs.
+From Verif Require Import Base Scope Types Prog Pop Token Authorize System Config Artifacts ArtifactsX Disclosure C08Proofs C09Proofs C09History C08XProofs C09DcrProofs.
 Local Open Scope N_scope.
 
 (* PublicJWKS, for every key set and every key type (RSA, EC of any curve, symmetric; given with or
@@ -57,6 +57,26 @@ Print Assumptions registration_token_only_when_rotating.
 Theorem error_bodies_carry_no_secret : forall e, body_atoms (BError e) = [].
 Proof. exact error_bodies_carry_nothing. Qed.
 Print Assumptions error_bodies_carry_no_secret.
+
+(* The one secret the provider keeps in clear: after the registration or update (at index n) of a client
+   one of whose methods in force - token, introspection or revocation endpoint - is client_secret_jwt,
+   the stored object holds the secret itself (and its hash too when a client_secret_basic / _post method
+   is in force as well: the same string).  A later READ of that registration (any index, any rotation
+   setting) answers with no secret atom at all and leaves the stored object as it is: the clear secret
+   is disclosed by the response that minted it and by no other. *)
+Theorem read_after_jwt_registration_discloses_nothing : forall o n rot c m rot' ok,
+  (o = DCreate \/ o = DUpdate) -> dc_jwt_method c = true ->
+  let c' := fst (dcr_handle o n rot true c) in
+  In (SPlain (mint n KSecret)) (stored_atoms c') /\
+  (dc_hashed_methods c = true -> dc_hsecret c' = mint n KSecret) /\
+  body_atoms (snd (dcr_handle DRead m rot' ok c')) = [] /\
+  fst (dcr_handle DRead m rot' ok c') = c'.
+Proof.
+  intros o n rot c m rot' ok O J c'.
+  destruct (jwt_registration_keeps_plain_secret o n rot c O J) as [_ [I [_ H]]].
+  destruct (read_body_no_atoms m rot' ok c') as [B F]. auto.
+Qed.
+Print Assumptions read_after_jwt_registration_discloses_nothing.
 
 (* ---- widened inputs (Model/ArtifactsX.v): key handling options, pairwise subjects of every origin ---- *)
 
